@@ -210,11 +210,17 @@ def callee_contracts(called, targets):
         for t in cfg.get("targets", []):
             where.setdefault(t.split("#")[0], []).append(pid)
     out = []
+    full = {t for t in targets}
+    where_full = {}
+    for pid, cfg in props.PROPS.items():
+        for t in cfg.get("targets", []):
+            where_full.setdefault(t, []).append(pid)
     for q in sorted(called):
-        if q in mine:
+        if q in full or ("#" not in q and q in mine):
             continue
-        if q in where:
-            out.append("contract of %s used at call sites: discharged by the check of %s" % (q, ", ".join(sorted(set(where[q])))))
+        if q in where_full or ("#" not in q and q in where):
+            pids = where_full.get(q) or where[q]
+            out.append("contract of %s used at call sites: discharged by the check of %s" % (q, ", ".join(sorted(set(pids)))))
         else:
             out.append("ASSUMED contract of %s used at call sites: not discharged by any check (outside the subset); "
                        "validated by the bounded runs of this property" % q)
